@@ -97,4 +97,9 @@ def hedge (tbl : List (String × Form)) (kw : String) (ν : Numeral) (sq : Rat) 
   | some f => hedgeForm f ν sq
   | none => none
 
+/-- the `Interval` constructor asserts `lo ≤ hi` -/
+def checked : Option Ivl → Except Err (Option Ivl)
+  | some ⟨.fin a, .fin b⟩ => if a ≤ b then .ok (some ⟨.fin a, .fin b⟩) else .error .Assertion
+  | o => .ok o
+
 end Pun.Hedge
